@@ -362,7 +362,7 @@ def case_stem(c):
 def run(ctx):
     Tt = ctx.tier == 'thorough'
     cases = []
-    for rate, P in ((1024.0, 16), (3e9, 16), (48e3, 8), (1e6, 32), (1024.0, 14)):    # 14 = 2 x 7: a transform length that is not 5-smooth
+    for rate, P in ((1024.0, 16), (3e9, 16), (48e3, 8), (1e6, 32), (1024.0, 14), (1024.0, 15)):    # 14 = 2 x 7: not 5-smooth; 15: an odd branch count (7 whole channels + DC)
         half = P // 2
         wins = sorted(set([(0, 1), (0, 3), (1, 1), (1, 2), (half - 3, 3), (half - 1, 1)] +
                           ([(s, n) for s in range(half) for n in (1, 2, 3) if s + n <= half] if Tt else [])))
@@ -414,7 +414,10 @@ def run(ctx):
     from mc.checks import c04
     confs = [dict(bpf=2, nb=2, asc=True, fch1=0.0, start_chan=0, num_chans=2, npol=2, source='ant', dio=1),
              dict(bpf=2, nb=2, asc=False, fch1=6e9, start_chan=1, num_chans=3, npol=1, source='ant', dio=0),
-             dict(bpf=1, nb=2, asc=True, fch1=1e6, start_chan=2, num_chans=1, npol=2, source='ant', dio=1)]
+             dict(bpf=1, nb=2, asc=True, fch1=1e6, start_chan=2, num_chans=1, npol=2, source='ant', dio=1),
+             # recordings of antenna arrays (OBSNCHAN counts the channels of all antennas)
+             dict(bpf=2, nb=2, asc=False, fch1=6e9, start_chan=1, num_chans=3, npol=2, source='arr2', dio=0),
+             dict(bpf=2, nb=1, asc=True, fch1=1e9, start_chan=0, num_chans=2, npol=1, source='arr3', dio=1)]
     ctx.pmap(c04.case_restem, [dict(box='restem', steps=[a, b]) for a in confs for b in confs if a is not b])
     return ctx.finish(
         rule='complete box of (sample_rate, branches) x channel window x orientation x fch1 x polarisation placement x recorded '
